@@ -103,8 +103,12 @@ static std::string record(const std::string& op, const Position& pos, const std:
         Position back = TextIO::readFEN(fen);
         Position want(pos);
         TextIO::fixupEPSquare(want);
+        // the (repaired) reader clamps both counters to 0..65535; beyond that the round trip is exact up to the clamp
+        bool beyond = pos.halfMoveClock > 65535 || pos.fullMoveCounter > 65535;
+        if (want.halfMoveClock > 65535) want.halfMoveClock = 65535;
+        if (want.fullMoveCounter > 65535) want.fullMoveCounter = 65535;
         std::string dd = diffFields(back, want);
-        os << (dd.empty() ? "ok" : "MISMATCH:" + dd);
+        os << (dd.empty() ? (beyond ? "clamped" : "ok") : "MISMATCH:" + dd);
     } catch (const ChessParseError& e) {
         os << "err:" << vFenErrClass(e.what());
     }
